@@ -84,7 +84,7 @@ Proof. vm_compute. auto. Qed.
 (* ---- whole documents (element structure, any depth): Model/Doc.v instantiated with today's tables (Model/DocTables.v) ---- *)
 From MX Require Import Model.SeqIds Model.Doc Model.DocTables.
 Definition rows_ok9 : forall r, In r cm_rows -> cm_row_ok r = true := fun r I => forallb_In _ _ _ cm_rows_ok9 I.
-(* every document, of any depth, whose every element has a type of the sequence class or of the bag class (or no element content) and whose
+(* every document, of any depth, whose every element has a type of the sequence, choice or bag class (or no element content) and whose
    children at every node form a word of the SCHEMA's content model, is read by the parser, and serialising what was read gives back exactly
    that document: same elements, same order, same nesting *)
 Theorem C09_document_structure : forall d, schema_valid d -> exists e, doc_parse d = Some e /\ doc_emit e = Some d.
@@ -93,7 +93,7 @@ Print Assumptions C09_document_structure.
 (* and for ANY document, valid or not: if the parser returns and the result serialises, then at every node the emitted children are the
    children that were read, up to order (each related recursively): nothing is dropped, invented or moved to another parent *)
 Theorem C09_document_no_silent_loss : forall d e d', doc_parse d = Some e -> doc_emit e = Some d' -> same_content d d'.
-Proof. exact tables_no_silent_loss. Qed.
+Proof. exact (tables_no_silent_loss rows_ok9). Qed.
 Print Assumptions C09_document_no_silent_loss.
 Example C09_document_example :
   let d := XNode s_defaults [XNode s_scaling [XNode s_millimeters []; XNode s_tenths []];
@@ -105,3 +105,11 @@ Example C09_document_example_bag :
   let d := XNode s_articulations [XNode s_staccato []; XNode s_accent []; XNode s_staccato []; XNode s_tenuto []] in
   schema_validb d = true /\ exists e, doc_parse d = Some e /\ doc_emit e = Some d.
 Proof. split; [vm_compute; reflexivity|]. apply C09_document_structure. apply (schema_validb_sound rows_ok9). vm_compute. reflexivity. Qed.
+(* a choice-class element: bend (bend-alter, (pre-bend | release)?, with-bar?) *)
+Example C09_document_example_choice :
+  let d := XNode s_bend [XNode s_bend_alter []; XNode s_release []; XNode s_with_bar []] in
+  schema_validb d = true /\ exists e, doc_parse d = Some e /\ doc_emit e = Some d.
+Proof. split; [vm_compute; reflexivity|]. apply C09_document_structure. apply (schema_validb_sound rows_ok9). vm_compute. reflexivity. Qed.
+(* how many element names get a machine today *)
+Example C09_document_domain : Nat.leb 380 (List.length (filter (fun p => match elem_tpl (fst p) with Some _ => true | None => false end) sym_table)) = true.
+Proof. vm_compute. reflexivity. Qed.
